@@ -14,7 +14,7 @@ for sd in sorted(os.listdir(V + '/seeded')):
     title = head[0] if head else ''
     files = sorted(set(re.findall(r'^\+\+\+ b/(\S+)', open(os.path.join(V, 'seeded', sd, 'patch.diff')).read(), re.M)))
     det = m.get('detected_by', {})
-    rows.append((sd, m['breaks_property'], title[:110], ', '.join(files), ', '.join('%s (%s)' % (k, v[0].split('|', 1)[1][:48] if v else '') for k, v in det.items()), m.get('detected_by_own_property_check')))
+    rows.append((sd, m['breaks_property'], title[:110], ', '.join(files), ', '.join('%s (%s)' % (k, (v[0].split('|', 1)[1][:48] if '|' in v[0] else v[0][:48]) if v else '') for k, v in det.items()), m.get('detected_by_own_property_check')))
 out = ['# Seeded changes', '',
        'Each directory holds `patch.diff` (applies to /repo HEAD with `git -C /repo apply`), `demo.rs` (integration test: fails with the patch, passes without), `notes.md` (the author\'s description) and `meta.json`.',
        'All 40 were written by fresh sub-agents that were given only the text of one property and a scratch worktree of /repo (nothing from /verif). Every one was re-confirmed by `tools/seed_verify.py` in a scratch copy: patch applies, demo passes on the unchanged tree and fails with the patch, `cargo test --lib` still reports 531 passed. `tools/seed_recheck.py all` re-runs all 20 checks against every patch and refreshes `meta.json`.', '',
